@@ -203,6 +203,14 @@ def configs(tier):
                                 procs=procs, jobs=[dict(
                                     kind='map', fn='typed', items=items,
                                     chunksize=cs)]))
+                if n == 3 and procs == 2:
+                    # the input as other kinds of iterable
+                    for cont in ('deque', 'seq', 'gen'):
+                        out.append(dict(
+                            name='map-%s/n%d/cs%s' % (cont, n, cs),
+                            procs=procs, jobs=[dict(
+                                kind='map', fn='typed', items=items,
+                                chunksize=cs, container=cont)]))
                 if n and procs == 2:
                     for k in range(n) if T else (0, n - 1):
                         out.append(dict(
